@@ -1,5 +1,6 @@
 (** C23 — data movers copy exactly the requested range.  Property theorems only. *)
 From Akita Require Import Lib.Base C23.Model C23.Exec.
+From Akita Require Import C23.Proofs C23.Proofs2 C23.Proofs3 C23.Proofs4 C23.Proofs5 C23.Proofs6 C23.Proofs7 C23.Proofs8.
 Local Open Scope N_scope.
 
 (** The full statement is false of the code when ByteSize is not a multiple of the
@@ -27,3 +28,116 @@ Theorem c23_unaligned_size_refuted :
    oc = 0 /\ flat_map to_acks obs = [] /\ d_active (e_dm e) = true /\ d_pread (e_dm e) = [] /\ d_pwrite (e_dm e) = []).
 Proof. vm_compute. repeat split; discriminate. Qed.
 Print Assumptions c23_unaligned_size_refuted.
+
+(** Buffer smaller than the destination granularity (buffer 32, granularities 16/64, 128 bytes):
+    the read window admits two 16-byte chunks, a 64-byte write never becomes extractable, the
+    accepted move is never acknowledged (confirmed on the real component, known finding F-C23-2). *)
+Theorem c23_small_buffer_refuted :
+  let '(e, obs, oc) := unaligned_run 16 64 32 128 200 in
+  oc = 0 /\ flat_map to_acks obs = [] /\ d_active (e_dm e) = true /\
+  d_pread (e_dm e) = [] /\ d_pwrite (e_dm e) = [] /\ g_writes (e_dm e) = [].
+Proof. vm_compute. repeat split. Qed.
+Print Assumptions c23_small_buffer_refuted.
+
+(** Setting for the universally quantified theorems: [env_run (mk_env (dm_init ...) mi mo [] []) script]
+    is the data mover driven for any number of ticks by ANY script: any moves arrive at Top, the
+    two memories serve the requests taken from the ports in any order and after any delay,
+    arbitrary further responses (any kind, any RspTo, any data) may be injected on both ports,
+    any number of messages is drained from each port.  [arrivals script obs] are the moves that
+    entered the Top port, in order. *)
+
+(** One acknowledgment per move, served one at a time in arrival order — for every script:
+    the moves that arrived are exactly the acknowledged moves, followed by the one in
+    progress (if any), followed by those still waiting in the Top buffer, in this order;
+    every acknowledgment carries RspTo = the ID of the move it closes and goes to its requester;
+    and the acknowledgments put on the Top port are exactly these, in order.  Hence the k-th
+    acknowledgment answers the k-th arrived move, no move is acknowledged twice, and a move is
+    started only after all earlier ones were acknowledged. *)
+Theorem c23_serial_one_ack : forall b gi go tc ic oc mi mo script e obs out,
+  env_run (mk_env (dm_init b gi go tc ic oc) mi mo [] []) script = (e, obs, out) ->
+  let d := e_dm e in
+  arrivals script obs = map snd (g_acks d) ++ (if d_active d then [d_req d] else []) ++ d_top_in d /\
+  Forall (fun x => a_rspto (fst x) = v_id (snd x) /\ a_dst (fst x) = v_src (snd x)) (g_acks d) /\
+  flat_map to_acks obs ++ d_top_out d = map fst (g_acks d).
+Proof.
+  intros b gi go tc ic oc mi mo script e obs out E.
+  pose proof (env_run_ainv script [] [] (mk_env (dm_init b gi go tc ic oc) mi mo [] []) e obs out (ainv_init b gi go tc ic oc) E) as [A B C].
+  cbn [app] in A, C. split; [exact A|split; [exact B|symmetry; exact C]].
+Qed.
+Print Assumptions c23_serial_one_ack.
+
+(** Nothing outside the destination range is written — for every script in which every move
+    has a ByteSize that is a multiple of the granularities of both of its sides (and ranges that
+    do not wrap around 2^64), whatever the memories answer: every write request the data mover
+    ever sends goes to the destination side of a move that arrived and lies entirely inside that
+    move's destination range.  (The ghost [g_writes] is extended exactly where writeToDst puts
+    the WriteReq on the port.)  The run never reaches the unbounded-growth outcome either. *)
+Theorem c23_nothing_else_written : forall b gi go tc ic oc mi mo script e obs out,
+  Forall (fun i => Forall (nice gi go) (i_top i)) script ->
+  env_run (mk_env (dm_init b gi go tc ic oc) mi mo [] []) script = (e, obs, out) ->
+  forall side addr data, In (side, addr, data) (g_writes (e_dm e)) ->
+  exists v, In v (arrivals script obs) /\ side = v_dside v /\
+            v_daddr v <= addr /\ addr + N.of_nat (length data) <= v_daddr v + v_size v.
+Proof.
+  intros b gi go tc ic oc mi mo script e obs out Hn E side addr data Hin.
+  pose proof (env_run_ginv gi go script Hn (mk_env (dm_init b gi go tc ic oc) mi mo [] []) e obs out (ginv_init b gi go tc ic oc) E) as G.
+  pose proof (env_run_ainv script [] [] (mk_env (dm_init b gi go tc ic oc) mi mo [] []) e obs out (ainv_init b gi go tc ic oc) E) as [A _ _]. cbn [app] in A.
+  pose proof (proj1 (Forall_forall _ _) (g_w _ _ _ G) _ Hin) as [v [Hv Hr]].
+  exists v. split; [|exact Hr].
+  rewrite A. unfold moves_so_far in Hv. rewrite app_assoc. apply in_or_app. left. exact Hv.
+Qed.
+Print Assumptions c23_nothing_else_written.
+
+(** c23_copy_exact — PARTIAL.  Full statement (not proved): under the hypotheses above plus
+    BufferSize >= both granularities and memories that answer every request exactly once with
+    their current content, when a move is acknowledged the destination range holds the bytes
+    the source range held when the move was requested.
+    Proved here: in every reachable state of such a script the transfer in progress satisfies
+    the structural invariant [sinv] (reads and writes advance in whole granules, never pass the
+    end of the range, writes never pass reads, every valid chunk lies below the read cursor,
+    every outstanding read has a free slot at or above the buffer offset), and an acknowledgment
+    is only sent when the write cursor has reached exactly the end of the destination range and
+    no read or write is outstanding.  Missing: the data carried by the chunks (the content half
+    of the statement is established by the exact tie only: final memory images are compared on
+    every run). *)
+Theorem c23_copy_exact_partial : forall b gi go tc ic oc mi mo script e obs out,
+  Forall (fun i => Forall (nice gi go) (i_top i)) script ->
+  env_run (mk_env (dm_init b gi go tc ic oc) mi mo [] []) script = (e, obs, out) ->
+  let d := e_dm e in
+  (d_active d = true -> sinv d) /\
+  (d_active d = true -> fst (finish d) = true ->
+     d_next_write d = v_daddr (d_req d) + v_size (d_req d) /\ d_pread d = [] /\ d_pwrite d = []).
+Proof.
+  intros b gi go tc ic oc mi mo script e obs out Hn E d.
+  pose proof (env_run_ginv gi go script Hn (mk_env (dm_init b gi go tc ic oc) mi mo [] []) e obs out (ginv_init b gi go tc ic oc) E) as G.
+  split; [apply (g_s _ _ _ G)|].
+  intros Act F. pose proof (g_s _ _ _ G Act) as S. fold d in S.
+  destruct S as [gs gd ms md ws wd sal sside [rd1 [rd2 rd3]] [wr1 [wr2 wr3]] bg bo ch pr pn].
+  unfold finish in F. rewrite Act in F. cbn [negb] in F.
+  rewrite (w64_small _ wd) in F.
+  destruct (d_next_write d <? v_daddr (d_req d) + v_size (d_req d)) eqn:Lt; [discriminate|].
+  destruct (d_pread d) as [|x r]; [|discriminate]. destruct (d_pwrite d) as [|y r']; [|discriminate].
+  split; [|split; reflexivity]. lia.
+Qed.
+Print Assumptions c23_copy_exact_partial.
+
+(** Non-vacuity and an instance of the full statement: two moves (inside->outside 64 bytes at
+    granularities 16/32, then outside->inside 32 bytes), memories answering youngest-first with
+    delays; both acknowledged in order and the final memories are exactly the two copies. *)
+Definition lifo : instant := mk_instant [] [3; 2; 1; 0]%nat [3; 2; 1; 0]%nat [] [] 1 2 2.
+Definition demo_moves : list move := [mk_move 7 2 16 32 64 0 1; mk_move 9 1 64 0 32 1 0].
+Definition demo_run : env * list tick_obs * N :=
+  env_run (mk_env (dm_init 64 16 32 2 3 3) (pat 128 1) (pat 128 101) [] [])
+          (mk_instant demo_moves [] [] [] [] 0 1 1 :: repeat lifo 60).
+
+Example c23_nonvacuous :
+  Forall (nice 16 32) demo_moves /\
+  let '(e, obs, oc) := demo_run in
+  oc = 0 /\ map (fun a => (a_dst a, a_rspto a)) (flat_map to_acks obs) = [(2, 7); (1, 9)] /\
+  let mo1 := mem_write (pat 128 101) 32 (mem_read (pat 128 1) 16 64) in
+  e_mem_out e = mo1 /\ e_mem_in e = mem_write (pat 128 1) 0 (mem_read mo1 64 32).
+Proof.
+  split.
+  - repeat constructor; vm_compute; reflexivity.
+  - vm_compute. repeat split.
+Qed.
